@@ -401,6 +401,15 @@ func c05run(x *mc.X, impl string, classes []c05class) {
 		if l := rawList(md, "list"); len(l) > 0 {
 			fail("mask-leaks-directory", "masked directory %s still lists %v", maskDir, l)
 		}
+		if hasDevnull {
+			// a mask is not a mount declared writable: what hides the directory must not be a place to write to
+			for _, op := range []string{"create", "mkdir"} {
+				if v, ok := md[op]; ok && rawInt(md, op) == 0 {
+					_ = v
+					fail("mask-writable", "%s inside the masked directory %s succeeded", op, maskDir)
+				}
+			}
+		}
 	}
 	if impl != "namespace-runner" {
 		lt := rep.Targets["/lnk"]
